@@ -65,7 +65,8 @@ theorem scrub_watchees_keep (n m : Node) (k : Nat) (hk : k ≠ n.pid.id) :
 theorem removeNode_of_live (t : Tree) (p : Ptr) (n : Node) (hl : t.live p = some n) :
     t.removeNode p = { t with
       pids := amapv (scrub n) (adel p.id t.pids)
-      names := if aget n.pid.name t.names = some p then adel n.pid.name t.names else t.names
+      names := (dropName t.names t.shadowed n.pid.name p).1
+      shadowed := (dropName t.names t.shadowed n.pid.name p).2
       counter := t.counter - 1 } := by
   unfold Tree.removeNode
   rw [hl]
@@ -102,40 +103,6 @@ theorem wf_removeNode (t : Tree) (p : Ptr) (h : WF t) : WF (t.removeNode p) := b
       have := length_adel_of_mem p.id t.pids h.nodup hmem
       have := h.counter
       omega
-    · intro nm q hq
-      have hq0 : aget nm t.names = some q ∧ ¬ (nm = n.pid.name ∧ aget n.pid.name t.names = some p) := by
-        rw [removeNode_of_live t p n hl] at hq
-        simp only at hq
-        split at hq
-        · rename_i hc
-          rw [aget_adel] at hq
-          split at hq
-          · simp at hq
-          · rename_i hne
-            exact ⟨hq, fun hh => hne hh.1⟩
-        · rename_i hc
-          exact ⟨hq, fun hh => hc hh.2⟩
-      obtain ⟨n0, hn0, hname⟩ := h.names_live nm q hq0.1
-      have hn0' := (live_eq_some t q n0).mp hn0
-      have hqid : q.id ≠ p.id := by
-        intro he
-        have : n0 = n := by
-          have := hn0'.1
-          rw [he, hl'.1] at this
-          simpa using this.symm
-        subst this
-        have hqp : q = p := by
-          have h1 := hn0'.2
-          have h2 := hl'.2
-          cases q; cases p
-          simp only [Ptr.mk.injEq]
-          simp only at he h1 h2
-          exact ⟨he, by omega⟩
-        subst hqp
-        exact hq0.2 ⟨hname.symm, by rw [hname]; exact hq0.1⟩
-      refine ⟨scrub n n0, ?_, by simpa using hname⟩
-      rw [live_eq_some, hg]
-      simp [hqid, hn0'.1, hn0'.2]
     · intro a na w pw ha hw
       rw [hg] at ha
       split at ha
